@@ -17,10 +17,10 @@ Requirements for the change:
 - It should look like a plausible refactoring/optimisation/bug a real developer could introduce (off-by-one, wrong comparison, reordered steps, dropped re-check, cache not invalidated, error swallowed, wrong variable...). Keep it small (a few lines, one or two files, non-test files under pkg/ or internal/).
 - The tree must still build (`go build ./...`) and the existing tests of the packages you touched and of their main users must still pass. {focus}
 
-Toolchain (no network): in every shell command first run `export GOFLAGS=-mod=mod GOPROXY=off` and do NOT set GOTOOLCHAIN or GOSUMDB. Run tests like `cd {wt} && go test -count=1 -vet=off ./pkg/blobserver/... ` (a few tests fail even on the unmodified tree, e.g. pkg/blobserver/diskpacked TestWriteError, TestBadDir when run as root and the s3 endpoint tests - check with `git stash` which failures are pre-existing; your change must not add new failures). Always pass an explicit `-timeout 120s` style limit. NEVER use `git stash` (the stash is shared by all worktrees of this repository and other agents work in parallel): to compare with the unmodified code use `git diff > /tmp/x.diff; git apply -R /tmp/x.diff; ...; git apply /tmp/x.diff`. Clean up /tmp/perkeep-test-* and /tmp/camli-testroot-* directories the test-suite leaves behind.
+Toolchain (no network): in every shell command first run `export GOFLAGS=-mod=mod GOPROXY=off` and do NOT set GOTOOLCHAIN or GOSUMDB. Run tests like `cd {wt} && go test -count=1 -vet=off ./pkg/blobserver/... ` (a few tests fail even on the unmodified tree, e.g. pkg/blobserver/diskpacked TestWriteError, TestBadDir when run as root and the s3 endpoint tests - find out which failures are pre-existing; your change must not add new failures). Always pass an explicit `-timeout 120s` style limit. NEVER use `git stash` (the stash is shared by all worktrees of this repository and other agents work in parallel): to compare with the unmodified code use `git diff > /tmp/x.diff; git apply -R /tmp/x.diff; ...; git apply /tmp/x.diff`. Clean up /tmp/perkeep-test-* and /tmp/camli-testroot-* directories the test-suite leaves behind.
 
 Deliverables in {wt}-out/ :
 1. patch.diff - `git -C {wt} diff` of your change to non-test files only (it must apply with `git apply` to a clean checkout of the same commit).
 2. demo_test.go (plus a note of which package directory it must be copied into, e.g. pkg/blobserver/replica/) - a Go test (or small program) that FAILS with your change applied and PASSES without it, demonstrating the property violation through public/package APIs. Verify both directions yourself.
-3. meta.json - {{"property": "{p['id']}", "files": [...], "summary": "what the change does", "needs": "what specific circumstance is needed for it to manifest", "demo_pkg_dir": "...", "demo_run": "exact go test command", "existing_tests_run": "commands you ran and their outcome"}}.
+3. meta.json - {{"property": "{p['id']}", "files": [...], "summary": "what the change does", "needs": "what specific circumstance is needed for it to manifest", "demo_pkg_dir": "...", "demo_run": "exact go test command, run from the worktree root, assuming demo_test.go has already been copied into demo_pkg_dir (no cp / cd in it)", "existing_tests_run": "commands you ran and their outcome"}}.
 Leave the worktree with your change applied (do not commit). Finish by reporting a short summary (what you changed, how it manifests, test results).""")
